@@ -26,7 +26,7 @@ CHECKS = {
 }
 
 CHECKS["C02"] = dict(
-    category="proof", design_ref="DESIGN.md §6 C02", engine="parser",
+    category="proof", design_ref="DESIGN.md §6 C02", engine="parser + serve (+ real binary in the thorough tier)",
     technique="Lean 4 theorems (encode/parse round trip for every pipeline; for arbitrary bytes: shape, soundness of every delivered command, named error cases; "
               "fragmentation independence of a chunked reader model) + differential correspondence with resp.ParseStream under arbitrary chunking",
     text="Kernel-checked theorems Resp.C02_roundtrip and C02_compositional: the model of resp/parser.go's state machine decodes every pipeline of "
@@ -40,7 +40,9 @@ CHECKS["C02"] = dict(
          "negative other than -1, non-numeric, LF without CR, bare LF, bulk body without CR LF). C02.fragmentation_independent: the incremental reader of "
          "Resp/Chunked.lean (ReadBytes / ReadFull over a buffer carried between reads) yields for every list of chunks exactly parseLoop of the concatenation. "
          "Tied to the code by feeding well-formed and malformed streams to resp.ParseStream whole, byte by byte and in random chunks and comparing the full "
-         "event list with the model's; the driver also runs the chunked reader on the very chunk boundaries the harness's reader handed out (field k= of each line).",
+         "event list with the model's; the driver also runs the chunked reader on the very chunk boundaries the harness's reader handed out (field k= of each line). "
+         "Thorough tier only: idle/gap sweep on the REAL binary started with a three-line configuration (vlib/idlesweep.py): 62 connections silent for 0..305 s, then a SET+GET "
+         "pipeline in two pieces 5.6 s apart (cut inside a payload, a header line, a CRLF); each must answer as if written whole (fragmentation independence includes WHEN the pieces arrive).",
     note="Trusted: Lean kernel (propext, Classical.choice, Quot.sound), harness/driver, that bufio.Reader.ReadBytes / io.ReadFull implement the modelled reader. "
          "Bulk arguments below 512 MiB. Isolation between connections (nothing executed after a protocol error) is also exercised through the serve engine.",
 )
@@ -58,7 +60,7 @@ CHECKS["C01"] = dict(
 )
 
 CHECKS["C03"] = dict(
-    category="proof", design_ref="DESIGN.md §6 C03", engine="serve",
+    category="proof", design_ref="DESIGN.md §6 C03", engine="serve + rendezvous",
     technique="Lean 4 theorems (decoder inverts reply encoder; one reply per command in order on the connection-loop model) + differential correspondence on raw reply byte streams",
     text="Resp.decode_encode/decodeList_encode: an independent RESP2 decoder inverts the reply encoder for every reply (nested arrays, arbitrary bulk bytes). "
          "Exec.one_reply_per_command, replies_in_order, nothing_after_error: the model of Manager.Handle writes exactly one reply per array command, in "
@@ -72,7 +74,9 @@ CHECKS["C03"] = dict(
          "source on every run (harness/sites.go -> Generated/ReplySites.lean -> Props/C03Sites.lean): ReplySites.no_client_bytes_in_line_replies - no call of "
          "MakeStringData / MakeErrorData / MakeWrongNumberArgs / MakePlainData receives an expression derived from the command words (per-function taint through "
          "indexing, conversions, strings.*, fmt.Sprintf, concatenation, locals); ReplySites.inventory - the calls with a non-constant payload are exactly a "
-         "reviewed list; a broken obligation aims CR/LF-carrying sessions at the executors concerned and is reported with the framing break found, or as no-failing-input-found.",
+         "reviewed list; a broken obligation aims CR/LF-carrying sessions at the executors concerned and is reported with the framing break found, or as no-failing-input-found. "
+         "Cluster-mode connection loop (Manager.HandleCluster + handleClusterCommits): Rendezvous.own_reply (shared with C07) - the k-th value delivered to a connection is the reply of its own "
+         "k-th submitted command and no connection ever has more replies than submissions; waiter_never_stuck_after_apply; tied by the rendezvous engine (the harness plays raft; 150 scenarios quick, 3 000 thorough).",
     note="Trusted: Lean kernel, harness (net.Pipe, sentinel PING framing), driver, the F6 extractor (helpers receiving a string parameter are not followed). The theorem is about the model; the Go encoder is tied by the "
          "byte-level comparison. Scheduler and socket behaviour under concurrent connections are explored, not proved.",
 )
@@ -93,17 +97,21 @@ CHECKS["C19"] = dict(
          "channel-then-table Release), PSC.cross_channel_order_not_linearizable. Tie: hook H2b records every Pub/Sub lock operation and conns-map access; on every run "
          "each goroutine's event sequence must be a run of the model's operation automaton PSC.TA (PSC.thread_trace_accepted: every thread of the model is accepted by it), "
          "checked by its Go transcription in every pubsub scenario and by the Lean automaton itself (driver engine PST) on the small scenarios' whole traces; sequential "
-         "scenario covering every code path and automaton state, negative controls.",
+         "scenario covering every code path and automaton state, negative controls. "
+         "Scenario pubsub-stall: one of five subscribers stops reading for 2.6 s (thorough: also 6.5 s, 11 s) while a message is published, then reads on: PUBLISH reports five, every "
+         "subscriber holds the message exactly once, the next message reaches all five.",
     note="Partial: the cross-channel order of one connection's deliveries is not linearizable (refuted in Lean, a finding); the concurrency theorems are about the model "
          "(Go scheduler, memory model, sync.RWMutex modelled; -race runs); TCP back-pressure is runtime behaviour outside the model. Trusted: Lean kernel, harness "
          "(incl. the Go-side automaton), driver, hook H2b.",
 )
 CHECKS["C20"] = dict(
-    category="proof", design_ref="DESIGN.md §6 C20", engine="serve",
+    category="proof", design_ref="DESIGN.md §6 C20", engine="serve + cluster (one real node)",
     technique="Lean 4 theorems on the connection-layer model (SELECT acceptance, per-connection selection, database isolation) + differential correspondence over several connections",
     text="Exec.select_accepts_exactly, select_reject_nochange, selection_is_per_connection, isolation, reply_independent_of_other_dbs are proved for the "
          "function the driver runs (Server.execOn), for every argument, database count and connection; interleavings are sequences of execOn steps. "
-         "SELECT-heavy sessions over 1-4 connections and 1/2/16 databases against Manager.Handle are compared with the model.",
+         "SELECT-heavy sessions over 1-4 connections and 1/2/16 databases against Manager.Handle are compared with the model (sweeps over every index and its neighbours, "
+         "first-SELECT races of parallel connections). Cluster mode: a one-node REAL cluster (cluster.json naming RaftAddr explicitly, 16 configured databases) must refuse SELECT of "
+         "another database or keep the selection the connection's own (cluster engine's select probe).",
     note="Trusted: Lean kernel, harness, driver; strconv.Atoi mirrored by the model's integer parser. Cluster-mode SELECT goes through the replicated log and is not covered here.",
 )
 
@@ -165,12 +173,13 @@ CHECKS["C06"] = dict(
          "changes nothing observable, that a key is visible exactly until its deadline, and the TTL/PERSIST/EXPIRE(NX/XX/GT/LT)/SET(KEEPTTL) laws; "
          "Ttl.congruence/program_refines prove the general statement for block programs. The tie runs batches of hundreds of scenarios on the real clock "
          "with deadlines placed so that for ~0.8 s only the lazy check can hide the key, probing with every reading and writing command, and compares "
-         "replies and dumps with the model given the clock readings observed around each command.",
+         "replies and dumps with the model given the clock readings observed around each command; a restore-across-deadline batch writes the keyspace to a snapshot "
+         "and loads it into a fresh database inside that window (all six value types): a key restored past its deadline stays invisible.",
     note="Partial: timer goroutine scheduling is runtime; one-second granularity. Trusted: Lean kernel, harness clock readings, driver.",
 )
 
 CHECKS["C11"] = dict(
-    category="proof", design_ref="DESIGN.md §6 C11", engine="exec",
+    category="proof", design_ref="DESIGN.md §6 C11", engine="exec + conc",
     technique="Lean 4 executable model of the set commands with kernel-checked set-algebra theorems (membership laws, union/intersection/difference, "
               "STORE semantics, non-empty/duplicate-free invariant, checker soundness for random commands) + differential correspondence on generated programs",
     text="GLOBAL: Exec.Global.global_invariant / no_empty_container / inv_iff_families - for programs over ALL 77 commands of every family the keyspace stays well-formed and never holds an empty list, set, hash or sorted set (and sets stay duplicate-free, hash tables Ok, trees ZT.Inv, stream ids increasing). "
@@ -181,7 +190,8 @@ CHECKS["C11"] = dict(
          "the union; every command preserves 'every set is non-empty and duplicate-free'; SPOP/SRANDMEMBER run in checker mode and acceptance "
          "implies the reported members are current members with the right count/distinctness and SPOP removes exactly them. The model is tied to "
          "the Go executors by generated programs over existing, missing, wrong-typed, long-TTL and already-expired keys with members including "
-         "the empty string and binary bytes, count extremes and arity damage, comparing every reply and the dump of the touched keys.",
+         "the empty string and binary bytes, count extremes and arity damage, comparing every reply and the dump of the touched keys. Concurrent scenarios addrem and "
+         "storeacc (SUNIONSTORE acc acc src / SDIFFSTORE live live dead / SINTERSTORE mask mask keep by 4-16 clients on ONE destination: every acknowledged update is in the final set).",
     note="Trusted: Lean kernel (propext, Classical.choice, Quot.sound), harness/driver/dump hook, strconv.Atoi mirrored by the model's integer parser. "
          "Error replies compared by class; SPOP/SRANDMEMBER member choice is the implementation's (validated, then adopted); reply order of "
          "SMEMBERS/SUNION/SINTER/SDIFF compared after sorting; a negative SRANDMEMBER count below -2^20 may be refused (grey clause).",
@@ -275,7 +285,8 @@ CHECKS["C14"] = dict(
          "elements, PUBLISH/SUBSCRIBE case variants, the empty array) go through server.VerifClusterRoundTrip and RaftProposal.ToBytes/json.Unmarshal; "
          "wire bytes, filter decision, decoded Args/Data/ID must equal the model's, and the decoded Args the submitted ones. Tie 2 (cluster-path): "
          "programs of every command family run through the same path (VERIF_CLUSTER_PATH=1) and every reply and keyspace dump is compared with the "
-         "standalone model.",
+         "standalone model. Tie 3 (codec conc): the same path taken by eight clients AT ONCE on their own keys (two of them submitting what the filter refuses, the others "
+         "commands with names of the same lengths): filter verdict, reply and log bytes of every command must be those of the same command submitted alone.",
     note="Trusted: Lean kernel (propext, Classical.choice, Quot.sound), harness/driver/hooks, Go's encoding/json and encoding/base64 (modelled, compared byte "
          "for byte on every run, not verified). Raft ordering/agreement is C15/C07, not part of this check; the path is exercised without the network. "
          "Partial: PUBLISH/SUBSCRIBE are refused by the cluster filter (C14_submit_same_meaning_partial carries clusterAccepts).",
